@@ -21,6 +21,7 @@ def evOfName (s : String) : Event :=
   | "after_deserialize" => .afterDeserialize
   | "before_serialize" => .beforeSerialize
   | "after_serialize" => .afterSerialize
+  | "serialize" => .serialize
   | "wsgi_call" => .wsgiCall
   | "wsgi_return" => .wsgiReturn
   | "wsgi_exception" => .wsgiException
@@ -41,6 +42,7 @@ def nameOfEv : Event → String
   | .afterDeserialize => "after_deserialize"
   | .beforeSerialize => "before_serialize"
   | .afterSerialize => "after_serialize"
+  | .serialize => "serialize"
   | .wsgiCall => "wsgi_call"
   | .wsgiReturn => "wsgi_return"
   | .wsgiException => "wsgi_exception"
@@ -69,7 +71,11 @@ def stageOfName (s : String) : Stage :=
 def outpOfName (s : String) : OutProto :=
   match s with
   | "soap11" => .soap11 | "soap12" => .soap12 | "json" => .json | "yaml" => .yaml
-  | "msgpack" => .msgpack | "msgpackrpc" => .msgpackRpc | _ => .xml
+  | "msgpack" => .msgpack | "msgpackrpc" => .msgpackRpc | "http" => .httpRpc | _ => .xml
+
+def shapeOfName (s : String) : Shape :=
+  match s with
+  | "void" => .void | "none" => .none | "generator" => .generator | _ => .value
 
 /-- registrations `[[name, h], ...]` with string event names -/
 def regsS (j : Json) (k : String) : List (String × H) :=
@@ -150,7 +156,8 @@ def step (j : Json) : Json :=
     Json.mkObj [("ok", Json.arr (qs.map fun q => Json.arr ((m.fire q).map fun (h : Nat) => Json.num (JsonNumber.fromNat h)).toArray).toArray),
                 ("keyerr", Json.arr ((keyErrors m0 (opsS spec "ops")).map Json.bool).toArray)]
   | "trace" =>
-    let c : Cfg := ⟨outpOfName (getStr j "outp"), if getStr j "transport" == "wsgi" then .wsgi else .serverBase⟩
+    let c : Cfg := ⟨outpOfName (getStr j "outp"), if getStr j "transport" == "wsgi" then .wsgi else .serverBase,
+                    shapeOfName (getStr j "shape")⟩
     let w := worldOf (getObj j "world")
     let r := worldRun F c (injOf j) w
     Json.mkObj [("ok", Json.mkObj [("trace", Json.arr ((r.steps.flatMap (expand w)).map obsJson).toArray),
